@@ -93,6 +93,7 @@ class File(AS.Function):
         def _fn(do_IO: DoIO) -> AS.EvalContext:
             del do_IO  # Unused
             count = self._file.write(content.value)
+            self._file.flush()  # keeps tell() truthful in append modes
             return AS.Integer(count)
             yield
 
